@@ -256,6 +256,22 @@ def ob_sanitise_tx(run, oid):
         ok = bool(cont) and all((r[1] is False and r[2] >= tx_max) for r in cont) and all(r[1] is True for r in stop)
         o.check(ok, "produce_slice_payload|space-reservation|covers-encoded-tx", "another transaction is accepted only while free space >= %d = encoded size of the largest admitted transaction (length prefix + MAX_TRANSACTION_SIZE)" % tx_max,
                 cont[0][4] if cont else b.span, {"guards": [(r[1], r[2], "continues" if r[3] else "stops") for r in res], "max_encoded_transaction": tx_max})
+        # the space reserved for the parent covers the largest parent the payload can end up with: a slice produced with `None` may get `Some(parent)` switched in
+        # afterwards (apply_parent_ready), 40 bytes more (D20)
+        caps = [c2 for c2 in b.calls() if c2.name.endswith("Vec::with_capacity") or c2.name.endswith("::with_capacity")]
+        okp = False
+        detp = {}
+        for c2 in caps:
+            ct = b.operand_term(c2.args[0])
+            if not K.mentions(ct, lambda t: t[0] == "const" and len(t) > 3 and str(t[3]).endswith("MAX_DATA_PER_SLICE")):
+                continue
+            sizes = [y for y in mir.walk(ct) if isinstance(y, tuple) and y and y[0] == "call" and y[1].endswith("serialized_size")]
+            with_some = [y for y in sizes if any(isinstance(z, tuple) and z and z[0] == "agg" and str(z[1]).endswith("option::Option") and z[2] == "Some" for z in mir.walk(y))
+]
+            maxes = [y for y in mir.walk(ct) if isinstance(y, tuple) and y and y[0] == "call" and y[1].rsplit("::", 1)[-1] == "max"]
+            detp = {"serialized_size calls": len(sizes), "with Some(..)": len(with_some), "max": len(maxes)}
+            okp = bool(with_some) and (bool(maxes) or len(sizes) == 1)
+        o.check(okp, "produce_slice_payload|space-reservation|covers-largest-parent", "the space reserved for the parent is at least the encoded size of Some(parent) (max with the given parent's size)", b.span, detp)
         # the transaction counter written into the length prefix counts exactly the transactions that were serialised
         incs = []
         for (bb2, i2, dst2, rv2, sp2) in b.assignments():
